@@ -12,6 +12,7 @@ fn any_tp() -> Throughput {
 // @ob props=C07 tier=quick kind=P cfg=core-std timeout=900
 // @fn <Throughput as AddAssign>::add_assign ; <Stats as AddAssign>::add_assign ; Stats::throughput ; Stats::throughput_mut
 // @clause statistics accumulate field-wise: adding Stats adds calls, frames, time and each of the four input/output counter pairs (objects, primitives, vertices, fragments) to its own counterpart and nothing else
+#[cfg(not(verif_skip_stats_accumulate_fieldwise))]
 #[kani::proof]
 #[kani::unwind(6)]
 fn stats_accumulate_fieldwise() {
